@@ -421,6 +421,19 @@ func (p *Parser) parseConstraintColumnList() ([]string, error) {
 func (p *Parser) parseSelectStatement() (ast.Statement, error) {
 	// We've already consumed the SELECT token in matchType
 
+	// Derived tables, joined sub-queries and set operations nest SELECTs without
+	// passing through parseExpression: count each SELECT against the recursion limit.
+	p.depth++
+	defer func() { p.depth-- }()
+	if p.depth > MaxRecursionDepth {
+		return nil, goerrors.RecursionDepthLimitError(
+			p.depth,
+			MaxRecursionDepth,
+			p.currentLocation(),
+			"",
+		)
+	}
+
 	// Check for DISTINCT or ALL keyword
 	isDistinct := false
 	var distinctOnColumns []ast.Expression
